@@ -322,7 +322,8 @@ func (g *vfGamma) requestParts(r *vfRecipe) (string, []vfHdr, []byte) {
 	}
 	M := []vfHdr{{g.name("Max-Forwards"), "70"}}
 	CL := vfHdr{g.name("Content-Length"), fmt.Sprint(len(body))}
-	C := []vfHdr{{g.name("Call-ID"), "cid1@" + g.base}, {g.name("CSeq"), "1 INVITE"}, CL}
+	// CSeq = 1*DIGIT LWS Method: leading zeros and more than one blank are legal spellings of the same number
+	C := []vfHdr{{g.name("Call-ID"), "cid1@" + g.base}, {g.name("CSeq"), g.pick("1 INVITE", "1 INVITE", "007 INVITE", "1   INVITE", "2147483647 INVITE", "1\tINVITE")}, CL}
 	var hs []vfHdr
 	cat := func(parts ...[]vfHdr) {
 		for _, p := range parts {
@@ -456,7 +457,8 @@ func (g *vfGamma) responseParts(r *vfRecipe) (string, []vfHdr, []byte) {
 	T := []vfHdr{{g.name("To"), g.pick("<sip:b@e.x>;tag=tt", "<sip:Bob@B.Example.NET>;tag=tt", "<tel:+1555;phone-context=X.Example>;tag=Tt", "<sip:b@e.x>; tag=tt", "<sip:b@e.x> ;tag = tt ; q=\"a; b\"")}}
 	M := []vfHdr{{g.name("Max-Forwards"), "70"}}
 	CL := vfHdr{g.name("Content-Length"), fmt.Sprint(len(body))}
-	C := []vfHdr{{g.name("Call-ID"), "cid1@" + g.base}, {g.name("CSeq"), "1 INVITE"}, CL}
+	// CSeq = 1*DIGIT LWS Method: leading zeros and more than one blank are legal spellings of the same number
+	C := []vfHdr{{g.name("Call-ID"), "cid1@" + g.base}, {g.name("CSeq"), g.pick("1 INVITE", "1 INVITE", "007 INVITE", "1   INVITE", "2147483647 INVITE", "1\tINVITE")}, CL}
 	var hs []vfHdr
 	cat := func(parts ...[]vfHdr) {
 		for _, p := range parts {
